@@ -19,7 +19,7 @@ TRUSTED = [
 
 def run(ctx):
     ctx.trusted = TRUSTED
-    ok, detail = core.coq_build(ctx, ["theories/Props/C11.vo", "theories/Limits/Corr.vo", "theories/Limits/Reap.vo", "theories/Limits/ReapLemmas.vo", "theories/Limits/RemoteCorr.vo", "theories/Limits/SessionCorr.vo"])
+    ok, detail = core.coq_build(ctx, ["theories/Props/C11.vo", "theories/Limits/Corr.vo", "theories/Limits/Reap.vo", "theories/Limits/ReapLemmas.vo", "theories/Limits/ReapMon.vo", "theories/Limits/RemoteCorr.vo", "theories/Limits/SessionCorr.vo"])
     ctx.oblige("coq build of Props/C11.vo and its dependencies", ok, detail)
     core.audit(ctx)
     if not ok:
